@@ -9,7 +9,7 @@ Floats: the model carries the literal token, never a value; compared through `re
 A text whose value contains a lone surrogate is outside the model (Lean `Char` cannot hold it): the model must answer
 `Other`; conversely `Other` is only accepted when CPython's value contains a lone surrogate or CPython rejects the text.
 """
-import json, math, sys
+import json, math, re, sys
 
 VALUE_ERR = "ValueError"
 
@@ -297,6 +297,40 @@ def run(driver, rng, n, lim_cases=True):
     return stats, bad
 
 
+FLOAT_RE = re.compile(r"-?(?:0|[1-9][0-9]*)(\.[0-9]+)?([eE][-+]?[0-9]+)?")
+
+
+def float_tok_spec(tok):
+    """the documented language of `floatTok`: JSON number with a fraction or an exponent, or one of the three words"""
+    if tok in ("NaN", "Infinity", "-Infinity"):
+        return True
+    m = FLOAT_RE.fullmatch(tok)
+    return bool(m) and (m.group(1) is not None or m.group(2) is not None)
+
+
+def float_tokens(driver, rng, n):
+    """`floatTok` (the side condition of the round-trip theorem on float tokens) holds of everything json.dumps writes for a
+    float, and coincides with the documented language on mutated tokens"""
+    toks, must = [], []
+    for i in range(n):
+        x = rng.choice(FLOATS) if i % 3 == 0 else rng.uniform(-10, 10) * 10.0 ** rng.randint(-320, 308)
+        toks.append(json.dumps(x)); must.append(True)                     # what the printer writes for a float
+    for i in range(n):
+        t = mutate(rng, repr(rng.uniform(-10, 10) * 10.0 ** rng.randint(-30, 30)))
+        if sendable(t):
+            toks.append(t); must.append(None)
+    for t in ["1", "-1", "0", "1.", ".5", "1e", "1e+", "01.5", "1.5x", " 1.5", "1.5 ", "inf", "nan", "-inf", "1.5e5.5", "--1.5", "+1.5", "1E5", "1e-0",
+              "0.0", "-0.0", "0e0", "00.0", "1.0e+07", "١.٥", "1.٥", "", "-", "e5", "1e5e", "Infinity ", "-NaN", "infinity"]:
+        toks.append(t); must.append(None)
+    outs = driver.call([{"op": "json_float_tok", "args": {"tok": t}} for t in toks])
+    bad = []
+    for t, m, o in zip(toks, must, outs):
+        exp = float_tok_spec(t)
+        if o is not exp or (m is True and o is not True):
+            bad.append({"tok": t, "model": o, "spec": exp, "printed_by_json_dumps": bool(m)})
+    return len(toks), bad
+
+
 def render_check(driver, rng, n):
     """the printer model on the same value distribution (floats excluded: the model carries repr tokens), incl. a nested start level"""
     vals = [gen_value(rng, floats=False) for _ in range(n)]
@@ -330,6 +364,11 @@ if __name__ == "__main__":
     print(json.dumps(stats, indent=1))
     for b in bad[:10]:
         print("DISAGREEMENT", json.dumps({k: (v if k != "text" else v[:300]) for k, v in b.items()})[:1500])
+    nf, fbad = float_tokens(drv, random.Random(seed + 2), max(50, n // 10))
+    print("float tokens vs documented language / json.dumps: %d tokens, %d disagreements" % (nf, len(fbad)))
+    for b in fbad[:3]:
+        print("FLOATTOK-DISAGREEMENT", json.dumps(b))
+    bad = bad + fbad
     nr, rbad = render_check(drv, random.Random(seed + 1), max(50, n // 10))
     print("printer model vs json.dumps: %d values, %d disagreements" % (nr, len(rbad)))
     for b in rbad[:3]:
